@@ -126,19 +126,19 @@ func (vc *FuncVC) needStrFuns() {
 		return
 	}
 	vc.strFuns = true
-	vc.declareFun("str.cat", []string{"Str", "Str"}, "Str")
-	vc.declareFun("str.len", []string{"Str"}, "Int")
-	vc.declareFun("str.lt", []string{"Str", "Str"}, "Bool")
+	vc.declareFun("str!cat", []string{"Str", "Str"}, "Str")
+	vc.declareFun("str!len", []string{"Str"}, "Int")
+	vc.declareFun("str!lt", []string{"Str", "Str"}, "Bool")
 	vc.axioms = append(vc.axioms,
-		"(forall ((s Str)) (! (>= (str.len s) 0) :pattern ((str.len s))))",
-		"(= (str.len "+vc.w.S.StrLit("")+") 0)",
-		"(forall ((a Str) (b Str)) (! (= (str.len (str.cat a b)) (+ (str.len a) (str.len b))) :pattern ((str.cat a b))))",
-		"(forall ((a Str)) (! (= (str.cat a "+vc.w.S.StrLit("")+") a) :pattern ((str.cat a "+vc.w.S.StrLit("")+"))))",
-		"(forall ((a Str)) (! (= (str.cat "+vc.w.S.StrLit("")+" a) a) :pattern ((str.cat "+vc.w.S.StrLit("")+" a))))",
-		"(forall ((a Str)) (! (not (str.lt a a)) :pattern ((str.lt a a))))",
-		"(forall ((a Str) (b Str)) (! (or (str.lt a b) (str.lt b a) (= a b)) :pattern ((str.lt a b))))",
-		"(forall ((a Str) (b Str)) (! (not (and (str.lt a b) (str.lt b a))) :pattern ((str.lt a b))))",
-		"(forall ((a Str) (b Str) (c Str)) (! (=> (and (str.lt a b) (str.lt b c)) (str.lt a c)) :pattern ((str.lt a b) (str.lt b c))))",
+		"(forall ((s Str)) (! (>= (str!len s) 0) :pattern ((str!len s))))",
+		"(= (str!len "+vc.w.S.StrLit("")+") 0)",
+		"(forall ((a Str) (b Str)) (! (= (str!len (str!cat a b)) (+ (str!len a) (str!len b))) :pattern ((str!cat a b))))",
+		"(forall ((a Str)) (! (= (str!cat a "+vc.w.S.StrLit("")+") a) :pattern ((str!cat a "+vc.w.S.StrLit("")+"))))",
+		"(forall ((a Str)) (! (= (str!cat "+vc.w.S.StrLit("")+" a) a) :pattern ((str!cat "+vc.w.S.StrLit("")+" a))))",
+		"(forall ((a Str)) (! (not (str!lt a a)) :pattern ((str!lt a a))))",
+		"(forall ((a Str) (b Str)) (! (or (str!lt a b) (str!lt b a) (= a b)) :pattern ((str!lt a b))))",
+		"(forall ((a Str) (b Str)) (! (not (and (str!lt a b) (str!lt b a))) :pattern ((str!lt a b))))",
+		"(forall ((a Str) (b Str) (c Str)) (! (=> (and (str!lt a b) (str!lt b c)) (str!lt a c)) :pattern ((str!lt a b) (str!lt b c))))",
 	)
 }
 
